@@ -31,31 +31,11 @@ spec fn keyed_entry(key: MerkleHash, e: CASChunkSequenceEntry) -> CASChunkSequen
     CASChunkSequenceEntry { chunk_hash: keyed_hash(key, e.chunk_hash), ..e }
 }
 
-//@ extract mdb_shard/src/shard_format.rs in `impl MDBShardInfo` region export_as_keyed_shard_impl
-//@ block `for chunk_index in 0..cas_metadata.num_entries {`
-//@ sig `fn export_chunk_entry(reader: &mut ShardReader, writer: &mut ShardWriter, hmac_key: HMACKey, include_chunk_lookup_table: bool, chunk_lookup: &mut Vec<(u64, (u32, u32))>, cas_index: u32, chunk_index: u32, mut byte_pos: usize) -> (res: IoResult<usize>)`
-//@ epilogue `Ok(byte_pos)`
-//@ contract
-    requires byte_pos + 48 <= usize::MAX,
-    ensures
-        res is Ok ==> {
-            let orig = decode_chunk_entry(old(reader).bytes@.subrange(old(reader).pos@, old(reader).pos@ + 48));
-            // the entry written is the entry read with its chunk hash in keyed form (hmac iff key != 0), all other fields equal
-            &&& /*@C18*/ final(writer).bytes@ == old(writer).bytes@ + encode_chunk_entry(keyed_entry(hmac_key, orig))
-            // exactly one 48-byte record consumed and produced
-            &&& final(reader).pos@ == old(reader).pos@ + 48 && final(reader).bytes@ == old(reader).bytes@
-            &&& res->Ok_0 == byte_pos + 48
-            // the lookup entry pushed (when requested) is the truncated KEYED hash -> (block index, chunk index); never the raw hash
-            &&& /*@C18*/ include_chunk_lookup_table ==> final(chunk_lookup)@ == old(chunk_lookup)@.push((keyed_hash(hmac_key, orig.chunk_hash).0[0], (cas_index, chunk_index)))
-            &&& /*@C18*/ !include_chunk_lookup_table ==> final(chunk_lookup)@ == old(chunk_lookup)@
-        },
-//@ end
-
 // ---- the header of each CAS block: written exactly as read (the xorb hash is kept) --------------------------------
 //@ extract mdb_shard/src/shard_format.rs in `impl MDBShardInfo` region export_as_keyed_shard_impl
 //@ from `let cas_metadata = CASChunkSequenceHeader::deserialize(reader)?;`
 //@ to `byte_pos += cas_metadata.serialize(writer)?;`
-//@ sig `fn export_cas_header(reader: &mut ShardReader, writer: &mut ShardWriter, mut byte_pos: usize) -> (res: IoResult<(CASChunkSequenceHeader, usize)>)`
+//@ sig `fn export_cas_header(reader: &mut ShardReader, writer: &mut ShardWriter, hmac_key: HMACKey, mut byte_pos: usize) -> (res: IoResult<(CASChunkSequenceHeader, usize)>)`
 //@ epilogue `Ok((cas_metadata, byte_pos))`
 //@ contract
     requires byte_pos + 48 <= usize::MAX,
@@ -71,7 +51,7 @@ spec fn keyed_entry(key: MerkleHash, e: CASChunkSequenceEntry) -> CASChunkSequen
 // the xorb lookup entry is keyed by the (unkeyed) xorb hash
 //@ extract mdb_shard/src/shard_format.rs in `impl MDBShardInfo` region export_as_keyed_shard_impl
 //@ block `if include_cas_lookup_table {` #1
-//@ sig `fn push_cas_lookup(cas_lookup: &mut Vec<(u64, u32)>, cas_metadata: &CASChunkSequenceHeader, cas_index: u32)`
+//@ sig `fn push_cas_lookup(cas_lookup: &mut Vec<(u64, u32)>, cas_metadata: &CASChunkSequenceHeader, cas_index: u32, hmac_key: HMACKey)`
 //@ contract
     ensures /*@C18*/ final(cas_lookup)@ == old(cas_lookup)@.push((cas_metadata.cas_hash.0[0], cas_index)),
 //@ end
@@ -81,13 +61,15 @@ spec fn keyed_entry(key: MerkleHash, e: CASChunkSequenceEntry) -> CASChunkSequen
 //@ end
 //@ extract mdb_shard/src/shard_format.rs in `impl MDBShardInfo` region export_as_keyed_shard_impl
 //@ from `out_footer.chunk_hash_hmac_key`
-//@ to `out_footer.chunk_hash_hmac_key = hmac_key;`
+//@ to-before `let creation_time`
 //@ sig `fn set_footer_key(out_footer: &mut MDBShardFileFooter, hmac_key: HMACKey)`
 //@ contract
     ensures /*@C18*/ *final(out_footer) == (MDBShardFileFooter { chunk_hash_hmac_key: hmac_key, ..*old(out_footer) }),
 //@ end
 
-// ---- the whole chunk list of one block ----------------------------------------------------------------------------
+// ---- the chunk list of one block: the `for chunk_index in 0..num_entries` loop, header and body ------------------------
+// per entry (the loop body, verified as the inductive step of the invariant below): the entry serialized is
+// keyed_entry(key, entry read) and the lookup entry pushed is (truncate(keyed hash), (cas_index, chunk_index))
 spec fn in_entry(bytes: Seq<u8>, p0: int, j: int) -> CASChunkSequenceEntry { decode_chunk_entry(bytes.subrange(p0 + 48 * j, p0 + 48 * j + 48)) }
 // bytes written for the first n entries of the block that starts at p0
 spec fn out_entries(key: MerkleHash, bytes: Seq<u8>, p0: int, n: int) -> Seq<u8> decreases n {
@@ -99,8 +81,8 @@ spec fn block_lookups(key: MerkleHash, bytes: Seq<u8>, p0: int, cas_index: u32, 
 }
 
 //@ extract mdb_shard/src/shard_format.rs in `impl MDBShardInfo` region export_as_keyed_shard_impl
-//@ from `for chunk_index in 0..cas_metadata.num_entries {`
-//@ to `byte_pos += chunk.serialize(writer)?; }`
+//@ from `for chunk_index in`
+//@ to-before `cas_index += 1`
 //@ sig `fn export_block_chunks(reader: &mut ShardReader, writer: &mut ShardWriter, hmac_key: HMACKey, include_chunk_lookup_table: bool, chunk_lookup: &mut Vec<(u64, (u32, u32))>, cas_index: u32, cas_metadata: &CASChunkSequenceHeader, mut byte_pos: usize) -> (res: IoResult<usize>)`
 //@ epilogue `Ok(byte_pos)`
 //@ contract
